@@ -151,6 +151,10 @@ def rule_tables(ctx):
     rows = []   # (coords, framing, successor, is_partial_path)
     nstatus100 = 0
     for o in outs:
+        if o.kind == "cut":
+            # a loop (e.g. a `for` over header values) still running beyond the unrolling bound: by then its carried values
+            # are widened atoms and every exit of the loop has been explored from an equivalent state
+            continue
         if o.kind != "return":
             ctx.violation(R1, "panic-path", "try_response can panic: %s" % (o.info if not isinstance(o.info, dict) else o.info["kind"]),
                           loc=body_loc(o.info["body"], o.info["src"]) if isinstance(o.info, dict) else None)
@@ -191,6 +195,8 @@ def rule_tables(ctx):
             ctx.incomplete(R2, "interp", "abstract interpretation of proceed failed: %s" % e)
             return
         for o2 in outs2:
+            if o2.kind == "cut":
+                continue
             if o2.kind != "return":
                 ctx.violation(R2, "panic-path", "proceed can panic after a complete response head: %s" % (
                     o2.info["kind"] if isinstance(o2.info, dict) else o2.info),
@@ -319,7 +325,8 @@ def rule_matcher(ctx):
     # the comparer itself: length test + per-char ascii-lowercase equality
     cl = prog.find("compare_lowercase_ascii")
     if ctx.require(cl, R, "comparer", "compare_lowercase_ascii"):
-        cc = [short(callee_path(t) or "") for _, t in cl.calls()]
+        from .panics import reachable_from
+        cc = [short(callee_path(t) or "") for b_ in reachable_from(prog, [cl]) for _, t in b_.calls()]
         ctx.check(any(x.endswith("to_ascii_lowercase") for x in cc) and any(x.endswith("<impl str>::len") for x in cc),
                   R, "comparer-structure", "comparer checks equal length and lower-cases each char", loc=body_loc(cl))
 
